@@ -23,12 +23,7 @@ Proof. intros Hb H. apply Z.quot_le_lower_bound; lia. Qed.
 
 Lemma capi_idx_ok c : capi_like c -> idx_ok c.
 Proof.
-  intros [Hr Hb He He64 Hp]. constructor; try lia; try (rewrite Hr; unfold c_epsilon_recursive; lia).
-  right. rewrite Hr. unfold c_epsilon_recursive, pgm_linear_search_threshold, sizeof_segment.
-  assert (0 <= kbits (c_kt c) / 8 <= 8) by (split; [apply Z.div_pos; lia | apply Z.div_le_upper_bound; lia]).
-  assert (4 <= Z.quot (8 * 64) (kbits (c_kt c) / 8 + (if c_fdouble c then 8 else 4) + 4)).
-  { apply quot_le_lower; destruct (c_fdouble c); lia. }
-  lia.
+  intros [Hr Hb He He64 Hp]. constructor; try lia; rewrite Hr; unfold c_epsilon_recursive; lia.
 Qed.
 
 Lemma capi_cfg_like kt eps fd par avx :
@@ -39,14 +34,14 @@ Proof. intros. constructor; cbn; (reflexivity || lia). Qed.
 Theorem C18_search_contract kt eps fd par avx data ix q :
   let c := capi_cfg kt eps fd par avx in
   8 <= kbits kt <= 64 -> 1 <= eps -> eps + 2 ^ 32 < 2 ^ 64 - 1 -> 1 <= par ->
-  float_ok_all c -> data_ok c data -> build c data = Ok ix -> zlen (ix_segments ix) < 2 ^ 32 ->
+  float_ok_valid c -> data_ok c data -> build c data = Ok ix -> zlen (ix_segments ix) < 2 ^ 32 ->
   q < sentinel c ->
   exists a, search c ix q = Ok a /\
     0 <= a_lo a <= lb data q /\ lb data q <= a_hi a <= zlen data /\
     (In q data -> lb data q < a_hi a) /\ a_hi a - a_lo a <= 2 * eps + 2.
 Proof.
   intros c Hb He He64 Hp Hf Hd Hbd Hs32 Hq.
-  exact (search_contract c data ix q (capi_idx_ok c (capi_cfg_like kt eps fd par avx Hb He He64 Hp)) Hf Hd Hbd Hs32 Hq).
+  exact (search_contract_valid c data ix q (capi_idx_ok c (capi_cfg_like kt eps fd par avx Hb He He64 Hp)) Hf Hd Hbd Hs32 Hq).
 Qed.
 
 (* the same with the floating-point interface asked only at the evaluated key *)
@@ -76,7 +71,7 @@ Qed.
 (* create + search: on valid data of at most 2^30 keys create succeeds (no exception of any kind) and
    every search below the reserved value satisfies the contract *)
 Theorem C18_create_search c data :
-  capi_like c -> c_par c <= 20 -> c_eps c <= 2 ^ 31 -> float_ok_all c -> data_ok c data -> zlen data <= 2 ^ 30 ->
+  capi_like c -> c_par c <= 20 -> c_eps c <= 2 ^ 31 -> float_ok_valid c -> data_ok c data -> zlen data <= 2 ^ 30 ->
   exists ix, build c data = Ok ix /\
     forall q, q < sentinel c ->
       exists a, search c ix q = Ok a /\
